@@ -404,6 +404,61 @@ def check_announced_lengths(ctx, prog, tag):
         ctx.floor("C16.T8 lengths announced to a serializer" + tag, n, 2)
 
 
+def check_searched_fields(ctx, prog, tag):
+    """T11 (round 10, seed C16-10): a lookup that binary-searches a field of its own object relies on an invariant of the
+    *type* - the field is sorted - that every place constructing the type has to establish.  For every field that a
+    method of the engine searches that way: each construction site of the type fills the field with a fresh empty
+    collection (it is then only appended to) or with a value that was sorted in the constructing function.  A second
+    constructor that stores the entries as they come (the serializer building a struct's map directly) makes the search
+    miss keys: fields silently become undefined, values no longer round-trip."""
+    from .. import query as _q
+    fields = {}
+    for f in prog.fns.values():
+        if f.crate not in ("minijinja", "minijinja_contrib") or f.kind == "closure":
+            continue
+        for c in f.calls():
+            if "binary_search" not in c.name and not c.name.endswith("::partition_point"):
+                continue
+            for o in flow.origins(f, c.args[0], through_calls=lambda k: 0 if k.name.endswith(("::deref", "::as_slice", "::as_ref")) else None):
+                if o.kind == "arg" and o.arg == 1 and o.proj:
+                    adt = f.locals[1].get("adt")
+                    if adt in ("alloc::sync::Arc", "alloc::rc::Rc", "alloc::boxed::Box"):
+                        adt = (f.locals[1].get("args") or [None])[0]
+                    fld = [x for x in o.proj if not x.startswith("as ")][0]
+                    if adt:
+                        fields.setdefault((adt, fld), []).append(f.where(c.bb))
+    n = 0
+    FRESH = ("::new", "::with_capacity", "::default", "Default>::default")
+    for (adt, fld), where in sorted(fields.items()):
+        a = prog.adts.get(adt)
+        if a is None:
+            continue
+        names = [x["name"] for x in a["variants"][0]["fields"]]
+        for (g, bb, i, rv) in _q.aggregates_of(prog, adt):
+            if g.crate not in ("minijinja", "minijinja_contrib"):
+                continue
+            idx = names.index(fld) if fld in names else (int(fld) if fld.isdigit() else None)
+            if idx is None or idx >= len(rv["ops"]):
+                continue
+            n += 1
+            op = rv["ops"][idx]
+            os_ = flow.origins(g, op) if "c" not in op else []
+            fresh = bool(os_) and all(o.kind == "call" and o.call.name.endswith(FRESH) for o in os_)
+            keys = {o.key() for o in os_}
+            sorted_here = False
+            for c in g.calls():
+                last = c.name.rsplit("::", 1)[-1]
+                if last.startswith("sort") and c.args and "c" not in c.args[0]:
+                    ks = {o.key() for o in flow.origins(g, c.args[0], through_calls=lambda k: 0 if k.name.endswith(("::deref_mut", "::as_mut_slice", "::as_mut")) else None)}
+                    if ks & keys and cfg.can_reach(g, c.bb, bb):
+                        sorted_here = True
+            ctx.ob("C16.T11.searched-field-is-sorted-where-the-type-is-built", "%s%s.%s|built-in-%s" % (tag, adt.split("::")[-1], fld, g.path.split("::")[-1] if g.kind != "closure" else g.path),
+                   fresh or sorted_here,
+                   "%s.%s is binary-searched (%s) but this construction site stores a collection that is neither fresh and empty "
+                   "nor sorted here" % (adt.split("::")[-1], fld, where[0]), g.where(bb))
+    return n, len(fields)
+
+
 def run(ctx):
     ctx.explain("C16 (tojson HTML-safety clause only): structural filter rule on the closure that post-processes the "
                 "serialised JSON: the only returned safe string is a buffer written char by char, the default arm "
@@ -481,6 +536,9 @@ def run(ctx):
                            lambda f: f.loc.f.endswith(("value/deserialize.rs", "value/serialize.rs")) or "serde_core::ser::Serialize" in f.path)
         check_handle_registry(ctx, prog, tag)
         check_announced_lengths(ctx, prog, tag)
+        n11, nf11 = check_searched_fields(ctx, prog, tag)
+        ctx.floor("C16.T11 binary-searched fields" + tag, nf11, 1)
+        ctx.floor("C16.T11 construction sites of types with a searched field" + tag, n11, 1)
     # positive control
     cprog = ctx.controls
     sub = ctx.fresh()
